@@ -698,8 +698,11 @@ impl Drop for OsIpcOneShotServer {
 impl OsIpcOneShotServer {
     pub fn new() -> Result<(OsIpcOneShotServer, String), UnixError> {
         unsafe {
-            let fd = libc::socket(libc::AF_UNIX, SOCK_SEQPACKET | SOCK_FLAGS, 0);
             let temp_dir = Builder::new().tempdir()?;
+            let fd = libc::socket(libc::AF_UNIX, SOCK_SEQPACKET | SOCK_FLAGS, 0);
+            if fd < 0 {
+                return Err(UnixError::last());
+            }
             let socket_path = temp_dir.path().join("socket");
             let path_string = socket_path.to_str().unwrap();
 
@@ -711,11 +714,16 @@ impl OsIpcOneShotServer {
                 len as socklen_t,
             ) != 0
             {
-                return Err(UnixError::last());
+                // Don't leak the socket. (Fetch the error first: `close` may change `errno`.)
+                let error = UnixError::last();
+                libc::close(fd);
+                return Err(error);
             }
 
             if libc::listen(fd, 10) != 0 {
-                return Err(UnixError::last());
+                let error = UnixError::last();
+                libc::close(fd);
+                return Err(error);
             }
 
             Ok((
@@ -748,9 +756,9 @@ impl OsIpcOneShotServer {
             if client_fd < 0 {
                 return Err(UnixError::last());
             }
-            make_socket_lingering(client_fd)?;
-
+            // From here on `receiver` owns the connection, also if one of the next steps fails.
             let receiver = OsIpcReceiver::from_fd(client_fd);
+            make_socket_lingering(client_fd)?;
             let (data, channels, shared_memory_regions) = receiver.recv()?;
             Ok((receiver, data, channels, shared_memory_regions))
         }
